@@ -161,6 +161,26 @@ static void observer(type_id mult, std::size_t M) {
 }
 #endif
 
+static void print_stream() {
+#ifdef YOMM2_VERIF
+    std::string s = "stream";
+    for (auto m : rec_mult) {
+        s += " " + std::to_string(m);
+    }
+    puts(s.c_str());
+    s = "mseq";
+    for (std::size_t i = 0; i < rec_M.size();) {
+        std::size_t j = i;
+        while (j < rec_M.size() && rec_M[j] == rec_M[i]) {
+            ++j;
+        }
+        s += " " + std::to_string(rec_M[i]) + ":" + std::to_string(j - i);
+        i = j;
+    }
+    puts(s.c_str());
+#endif
+}
+
 static bool abort_mode = false;
 static bool in_lookup = false; // what the library was asked when the handler is called
 static type_id lookup_arg = 0;
@@ -169,6 +189,7 @@ static void handler(const error_type& ev) {
     if (abort_mode) {
         // report, return: the library must abort()
         if (auto e = std::get_if<hash_search_error>(&ev)) {
+            print_stream();
             printf("hash error attempts %zu buckets %zu\n", e->attempts, e->buckets);
         } else if (auto e = std::get_if<unknown_class_error>(&ev)) {
             if (in_lookup) {
@@ -254,25 +275,7 @@ static int run(const case_t& c) {
             pub_unknown = true;
             pub_unknown_type = e.type;
         }
-#ifdef YOMM2_VERIF
-        {
-            std::string s = "stream";
-            for (auto m : rec_mult) {
-                s += " " + std::to_string(m);
-            }
-            puts(s.c_str());
-            s = "mseq";
-            for (std::size_t i = 0; i < rec_M.size();) {
-                std::size_t j = i;
-                while (j < rec_M.size() && rec_M[j] == rec_M[i]) {
-                    ++j;
-                }
-                s += " " + std::to_string(rec_M[i]) + ":" + std::to_string(j - i);
-                i = j;
-            }
-            puts(s.c_str());
-        }
-#endif
+        print_stream();
         if (pub_unknown) {
             printf("publish unknown %" PRIuPTR "\n", pub_unknown_type);
             fflush(stdout);
